@@ -160,6 +160,72 @@ def specBin (psBefore : PState) (ss : SState) (newId : Nat) (mres : String) (op 
         | _, _ => fin ss none
   | _, _ => fin ss none
 
+
+/-- S: unary operation / mapped function: the scalar function of the operand's element at every coordinate. -/
+def specUn (psBefore : PState) (ss : SState) (newId : Nat) (mres : String) (op a : String) (rest : List String)
+    (fin : SState → Option String → SOut) : SOut :=
+  let params := (rest.takeWhile (·.startsWith "#")).map (fun t => (t.drop 1).toString)
+  let optToks := rest.dropWhile (·.startsWith "#")
+  let unsafe_ := optToks.contains "unsafe"
+  let reuseTok := (optToks.find? (·.startsWith "reuse=")).map (fun t => (t.drop 6).toString)
+  let incrTok := (optToks.find? (·.startsWith "incr=")).map (fun t => (t.drop 5).toString)
+  let idOf (tok : String) : List Nat := match sObj psBefore ss tok with | some (i, _) => [i] | none => []
+  let dests : List Nat := (if unsafe_ then idOf a else []) ++
+    (match reuseTok with | some t => idOf t | none => []) ++ (match incrTok with | some t => idOf t | none => [])
+  let undef (ss : SState) : SOut := fin (dests.foldl (fun ss i => ss.setObj i none) ss) none
+  let refuse (ss : SState) : SOut := fin (dests.foldl (fun ss i => ss.setObj i none) ss) (some "r=err")
+  match sObj psBefore ss a, psBefore.obj a with
+  | some (tid, t), some (_, d) =>
+    let supported : Bool := if op == "apply" then mapTypes.contains d.dt else
+      match unaryClasses.find? (·.1 == op) with
+      | some (_, tc, kt) => tc.contains d.dt && kt.contains d.dt
+      | none => false
+    if !supported then refuse ss else
+    match t.elems ss with
+    | none => undef ss
+    | some ea =>
+      let g := unaryFn op d.dt params
+      let vals := ea.map g
+      match incrTok, reuseTok with
+      | some it, _ =>
+        match sObj psBefore ss it with
+        | some (iid, io) =>
+          if io.idx.elems.length != vals.length then refuse ss else
+          if io.idx.shape != t.idx.shape then undef ss else
+          match io.elems ss, ss.store[io.root]? with
+          | some old, some bcells =>
+            let nv := List.zipWith (fun r x => Val.app2 "add" r x) old vals
+            let b' := (io.idx.elems.zip nv).foldl (fun b (k, v) => b.setIfInBounds k v) bcells
+            if io.isView && mres != "ok" then fin ss (some "r=ok|err") else
+            fin { ss with store := ss.store.set! io.root b' } (some s!"r={if io.isView then "ok|err" else "ok"} ident={psBefore.firstVar iid}")
+          | _, _ => undef ss
+        | none => undef ss
+      | none, some rt =>
+        match sObj psBefore ss rt with
+        | some (rid, ro) =>
+          if ro.idx.elems.length != vals.length then refuse ss else
+          if ro.idx.shape != t.idx.shape then undef ss else
+          match ss.store[ro.root]? with
+          | some bcells =>
+            let b' := (ro.idx.elems.zip vals).foldl (fun b (k, v) => b.setIfInBounds k v) bcells
+            if ro.isView && mres != "ok" then fin ss (some "r=ok|err") else
+            fin { ss with store := ss.store.set! ro.root b' } (some s!"r={if ro.isView then "ok|err" else "ok"} ident={psBefore.firstVar rid}")
+          | none => undef ss
+        | none => undef ss
+      | none, none =>
+        if unsafe_ then
+          match ss.store[t.root]? with
+          | some bcells =>
+            let b' := (t.idx.elems.zip vals).foldl (fun b (k, v) => b.setIfInBounds k v) bcells
+            fin { ss with store := ss.store.set! t.root b' } (some s!"r=ok ident={psBefore.firstVar tid}")
+          | none => undef ss
+        else
+          let root := ss.store.size
+          let ss := { ss with store := ss.store.push vals.toArray }
+          let o' : SObj := { root := root, idx := ⟨t.idx.shape, List.range vals.length⟩ }
+          fin ({ ss with objs := (ss.sync newId).objs.push (some o') }) (some "r=ok ident=new")
+  | _, _ => undef ss
+
 /--
   One step of S. `psBefore`/`psAfter` are M's states (used only for variable → object identity and to
   learn whether the *model* changed an object, never for values). `mres` is M's outcome class.
@@ -397,6 +463,7 @@ def stepS (psBefore psAfter : PState) (ss : SState) (stepIdx : Nat) (toks : List
       fin ss (some s!"r=ok shape={showInts (ax.map (fun i => (getI? o.idx.shape i).getD 1))}")
     | _, _ => fin ss none
   | "bin" :: op :: via :: a :: b :: opts => specBin psBefore ss newId mres op via a b opts fin
+  | "un" :: op :: a :: rest => specUn psBefore ss newId mres op a rest fin
   | ["iter", v, script] =>
     match sObj psBefore ss v with
     | some (_, o) =>
